@@ -1083,6 +1083,28 @@ Proof.
     unfold digits in *. cbn [forallb] in Hd. now apply andb_true_iff in Hd as [_ Hd].
 Qed.
 
+Lemma match_runs_S k s :
+  match_runs (S k) s =
+  let '(a, r) := span_digits s in
+  match r with
+  | c :: r' => if c =? 32 then match match_runs k r' with
+                               | Some (l, rest) => Some (a :: l, rest)
+                               | None => None
+                               end
+               else None
+  | [] => None
+  end.
+Proof. reflexivity. Qed.
+
+Lemma match_fail_blank ds c r : digits ds = true -> sepch c ->
+  match_runs 4 (32 :: ds ++ c :: r) = None.
+Proof.
+  intros Hd Hc. rewrite match_runs_S.
+  change (span_digits (32 :: ds ++ c :: r)) with (@nil Z, 32 :: ds ++ c :: r).
+  cbv beta iota. change (32 =? 32) with true. cbv iota.
+  now rewrite (match_fail_run 2 ds c r Hd Hc).
+Qed.
+
 Lemma scan_skip_sep c r : sepch c -> imro_scan (c :: r) = imro_scan r.
 Proof. intros Hc. apply (scan_skip_run [] c r eq_refl Hc). Qed.
 
@@ -1132,9 +1154,8 @@ Proof.
   - f_equal. destruct o as [f|].
     + (* the sixth field: the attempt at the blank fails, then the run is skipped *)
       cbn [app]. rewrite <- app_assoc. cbn [app].
-      rewrite imro_scan_cons. cbn [match_runs span_digits]. change (is_digit 32) with false. cbv iota.
-      change (32 =? 32) with true. cbv iota.
-      rewrite (match_fail_run 2 (print_nat f) 41 R (print_nat_digits f)) by (split; [reflexivity|discriminate]).
+      rewrite imro_scan_cons.
+      rewrite (match_fail_blank (print_nat f) 41 R (print_nat_digits f)) by (split; [reflexivity|discriminate]).
       rewrite scan_skip_run; [exact IH|apply print_nat_digits|split; [reflexivity|discriminate]].
     + cbn [app]. rewrite scan_skip_sep by (split; [reflexivity|discriminate]). exact IH.
   - pose proof (print_nat_nonempty a). destruct (print_nat a); [congruence|discriminate].
@@ -1144,15 +1165,100 @@ Qed.
 Lemma scan_header h r : imro_scan (header_text h ++ r) = imro_scan r.
 Proof.
   unfold header_text. cbn [app]. rewrite scan_open. rewrite <- app_assoc. cbn [app].
-  induction h as [|z h IH]; cbn [map join].
-  - cbn [app]. apply scan_skip_sep. split; [reflexivity|discriminate].
+  induction h as [|z h IH].
+  - cbn [map join app]. apply scan_skip_sep. split; [reflexivity|discriminate].
   - destruct h as [|z2 h].
     + cbn [map join]. apply scan_skip_run; [apply print_nat_digits|split; [reflexivity|discriminate]].
-    + change (join [44] (print_nat z :: map print_nat (z2 :: h)))
-        with (print_nat z ++ [44] ++ join [44] (map print_nat (z2 :: h))).
-      rewrite <- !app_assoc. cbn [app].
+    + cbn [map] in *. cbn [join]. rewrite <- !app_assoc. cbn [app].
       rewrite scan_skip_run; [exact IH|apply print_nat_digits|split; [reflexivity|discriminate]].
 Qed.
 
 Lemma imro_scan_text h es : imro_scan (imro_text h es) = map entry_runs es.
 Proof. unfold imro_text. rewrite scan_header. apply scan_entries. Qed.
+
+(* ------------------------------------------------------------ volts per bit *)
+Definition ap_gain (e : Z * Z * Z * Z * Z * option Z) : Z := let '(_, _, _, g1, _, _) := e in g1.
+Definition lf_gain (e : Z * Z * Z * Z * Z * option Z) : Z := let '(_, _, _, _, g2, _) := e in g2.
+
+Lemma run_gain_print g : 0 <= g -> run_gain (Some (print_nat g)) = Some g.
+Proof.
+  intros Hg. unfold run_gain. pose proof (print_nat_nonempty g) as Hne.
+  destruct (print_nat g) eqn:E; [congruence|]. rewrite <- E. now rewrite print_nat_value.
+Qed.
+
+Lemma gains_of_runs (pick : nat) (sel : Z * Z * Z * Z * Z * option Z -> Z) es :
+  (forall e, nth_error (entry_runs e) pick = Some (print_nat (sel e))) ->
+  Forall (fun e => 0 <= sel e) es ->
+  mapM (fun r => run_gain (nth_error r pick)) (map entry_runs es) = Some (map sel es).
+Proof.
+  intros Hp Hs. apply mapM_map. intros e He. rewrite Hp. apply run_gain_print.
+  rewrite Forall_forall in Hs. now apply Hs.
+Qed.
+
+Lemma firstn_Forall {A} (P : A -> Prop) n l : Forall P l -> Forall P (firstn n l).
+Proof.
+  intros H. apply Forall_forall. intros x Hx. rewrite Forall_forall in H. apply H.
+  rewrite <- (firstn_skipn n l). apply in_or_app. now left.
+Qed.
+
+Lemma s2v_np1 d rng mi v h es x y sy ntr st nsy :
+  int2volt d = Some (rng, mi) ->
+  lookup (lit "imroTbl") d = Some (VStr (imro_text h es)) ->
+  lookup (lit "snsApLfSy") d = Some x -> py_index x (-1) = Some y -> py_int y = Some sy -> 0 <= sy ->
+  nchannels d = Some ntr -> sync_indices d = Some (st, nsy) ->
+  version d = Some v -> is_np2 v = false ->
+  Forall (fun e => 0 <= ap_gain e) es -> Forall (fun e => 0 <= lf_gain e) es ->
+  0 <= ntr - nsy ->
+  let n := Z.to_nat (ntr - nsy) in
+  s2v d = Some (rng, mi,
+                S2Imec (map (fun e => CG (ap_gain e, O)) (firstn n es) ++ zrepeat C1 sy)
+                       (map (fun e => CG (lf_gain e, O)) (firstn n es) ++ zrepeat C1 sy)).
+Proof.
+  intros Hi Ht Hx Hy Hsy Hsy0 Hn Hs Hv Hnp Hap Hlf Hnn n.
+  unfold s2v. rewrite Hi, Ht, Hx, Hy. cbn [option_map]. rewrite Hsy, Hn, Hs.
+  destruct (Z.ltb_spec sy 0); [lia|]. rewrite Hv, Hnp.
+  rewrite imro_scan_text. unfold py_take. destruct (Z.ltb_spec (ntr - nsy) 0); [lia|].
+  fold n. rewrite (firstn_map entry_runs).
+  rewrite (gains_of_runs 3 ap_gain), (gains_of_runs 4 lf_gain);
+    try (intros [[[[[? ?] ?] ?] ?] ?]; reflexivity); try now apply firstn_Forall.
+  rewrite !map_map. reflexivity.
+Qed.
+
+Lemma s2v_np2 d rng mi v tbl x y sy ntr st nsy :
+  int2volt d = Some (rng, mi) ->
+  lookup (lit "imroTbl") d = Some tbl ->
+  lookup (lit "snsApLfSy") d = Some x -> py_index x (-1) = Some y -> py_int y = Some sy -> 0 <= sy ->
+  nchannels d = Some ntr -> sync_indices d = Some (st, nsy) ->
+  version d = Some v -> is_np2 v = true -> 0 <= ntr - nsy ->
+  let g := zrepeat (CG (80, O)) (ntr - nsy) ++ zrepeat C1 sy in
+  s2v d = Some (rng, mi, S2Imec g g).
+Proof.
+  intros Hi Ht Hx Hy Hsy Hsy0 Hn Hs Hv Hnp Hnn g.
+  unfold s2v. rewrite Hi, Ht, Hx, Hy. cbn [option_map]. rewrite Hsy, Hn, Hs.
+  destruct (Z.ltb_spec sy 0); [lia|]. rewrite Hv, Hnp.
+  destruct (Z.ltb_spec (ntr - nsy) 0); [lia|]. reflexivity.
+Qed.
+
+(* reading the vector entry by entry *)
+Lemma nth_error_firstn_lt {A} (l : list A) n c : (c < n)%nat -> nth_error (firstn n l) c = nth_error l c.
+Proof.
+  revert n c. induction l as [|a l IH]; intros n c H.
+  - now rewrite firstn_nil.
+  - destruct n; [lia|]. destruct c; [reflexivity|]. cbn. apply IH. lia.
+Qed.
+
+Lemma vector_entries {A} (f : A -> conv) es n sy c :
+  (n <= length es)%nat ->
+  let vec := map f (firstn n es) ++ zrepeat C1 sy in
+  length vec = (n + Z.to_nat sy)%nat /\
+  ((c < n)%nat -> nth_error vec c = option_map f (nth_error es c)) /\
+  ((n <= c < n + Z.to_nat sy)%nat -> nth_error vec c = Some C1).
+Proof.
+  intros Hn vec. subst vec.
+  assert (HL : length (map f (firstn n es)) = n) by (rewrite map_length, firstn_length; lia).
+  split; [|split].
+  - rewrite app_length, HL. unfold zrepeat. now rewrite repeat_length.
+  - intros Hc. rewrite nth_error_app1 by lia. rewrite nth_error_map, nth_error_firstn_lt by lia. reflexivity.
+  - intros Hc. rewrite nth_error_app2 by lia. rewrite HL. unfold zrepeat.
+    apply nth_error_repeat. lia.
+Qed.
